@@ -24,8 +24,8 @@ func c10Alphabet() []fsx.Op {
 		out = append(out, o)
 	}
 	out = append(out,
-		fsx.Op{K: "CREATEMANY", H: "root/d", N: "m", Cnt: 120}, // more live inodes than the cache holds
-		fsx.Op{K: "CREATEMANY", H: "root", N: "k", Cnt: 40},    // directory of two blocks
+		fsx.Op{K: "CREATEMANY", H: "root/d", N: "m", Cnt: 120},          // more live inodes than the cache holds
+		fsx.Op{K: "CREATEMANY", H: "root", N: "k", Cnt: 40},             // directory of two blocks
 		fsx.Op{K: "CREATEMANY", H: "root/d", N: "L", Cnt: 20, Len: 112}, // twenty names of the maximal length
 		fsx.Op{K: "REMOVETHIRD", H: "root/d"},
 		fsx.Op{K: "REMOVETHIRD", H: "root"},
